@@ -11,6 +11,10 @@ Code modelled (deephyper 0.9.3 + the `fix:` commits of branch `fix-g3`):
 * `Optimizer._filter_failures` (`mean` / `max` / anything else = untouched, `ExhaustedFailures`),
   per objective (`axis=0`, fix 3); used by the fit and by the constant-liar `ask`
 * `RegularizedEvolution._tell`: string objectives are skipped, `deque(maxlen=population_size)`
+* `_on_done` → `storage.store_job_out` → `gather_other_jobs_done` of another evaluator on the same
+  search: what is stored is the objective AFTER the non-finite rewrite (`onDoneStore`, `otherView`)
+* the `cache_` of the constant-liar `Optimizer.ask` and the `CBO._ask` / `CBO._tell` calls that
+  reset it (`optAsk`, `cboAsk`, `cboTellCache`, `runCache`)
 
 Numbers that reach the optimizer are `Num` (a rational or a non-finite marker) so that the
 statement "no non-finite value reaches the surrogate" is not true by typing.
@@ -257,6 +261,119 @@ def runTells (p : Policy) (maxFailures : Nat) :
       match runTells p maxFailures st' rest with
       | .error e => .error e
       | .ok (stf, fits) => .ok (stf, match fit with | some f => f :: fits | none => fits)
+
+/-! ### what the storage keeps, and what another evaluator attached to the same search reads
+
+`Evaluator._on_done` first rewrites a non-finite objective of the local `HPOJob` to the marker and
+THEN calls `storage.store_job_out(job.id, job.objective)`: the storage receives the rewritten
+objective.  Every other evaluator attached to the same storage and `search_id` (the decentralised
+set-up, or a search restarted on an existing storage) reads it back in `gather_other_jobs_done`,
+which rebuilds a job with `job.set_output(job_data["out"])` and does not go through `_on_done`. -/
+
+/-- the two results of `_on_done` for an `HPOJob` whose objective is `o` -/
+structure Done where
+  job : Val       -- `job.objective` of the local job afterwards (told to its own search, dumped)
+  stored : Val    -- the `"out"` entry of the job in the storage
+  deriving Repr
+
+def onDoneStore (o : Val) : Done :=
+  let o' := onDoneObjective o
+  { job := o', stored := o' }
+
+/-- the other order ("persist first, then post-process"): NOT the code, kept as a witness of what
+the order of the two blocks of `_on_done` is responsible for -/
+def onDoneStoreEarly (o : Val) : Done := { job := onDoneObjective o, stored := o }
+
+/-- `gather_other_jobs_done` for one job of another evaluator: nothing is reported while
+`job_data["out"] is None`; otherwise the objective of the rebuilt job (`set_output(out)`) -/
+def otherObjective (stored : Val) : Except StdErr (Option Val) :=
+  match stored with
+  | .none => .ok none
+  | v =>
+    match standardizeOutput v with
+    | .error e => .error e
+    | .ok (o, _) => .ok (some o)
+
+/-- the objectives another evaluator gathers for jobs whose `"out"` entries are `stored` -/
+def otherView : List Val → Except StdErr (List Val)
+  | [] => .ok []
+  | v :: r =>
+    match otherObjective v with
+    | .error e => .error e
+    | .ok x =>
+      match otherView r with
+      | .error e => .error e
+      | .ok xs => .ok (match x with | some o => o :: xs | none => xs)
+
+/-! ### the cache of the constant-liar `ask`, and `CBO._ask` / `CBO._tell` around it
+
+`Optimizer.ask(n_points, strategy)` (constant-liar strategies, fitted model) returns
+`cache_[(n_points, strategy)]` when present, else computes a batch (environment: `fresh`) and sets
+`cache_ = {(n_points, strategy): batch}`.  `Optimizer.tell` and `Optimizer.update_next` both reset
+`cache_ = {}`.  `CBO._ask` calls `update_next` first when something was asked since the last tell;
+`CBO._tell` calls `Optimizer.tell` when something is told and `update_next` when nothing is
+(every result an ignored failure, or an empty batch). -/
+
+structure AskCache (κ β : Type) where
+  entry : Option (κ × β)     -- `cache_` never holds more than one entry
+  asked : Bool               -- `CBO._asked_since_tell`
+  next : β                   -- `[_next_x]`: the single point computed by the last `tell` / `update_next`
+
+def AskCache.init {κ β : Type} (next0 : β) : AskCache κ β := ⟨none, false, next0⟩
+
+/-- `Optimizer.ask(n_points, strategy)`: the batch, and whether it came from the cache.
+`single` = (`n_points == 1`): that path returns `[_next_x]` and does not look at the cache. -/
+def optAsk {κ β : Type} [DecidableEq κ] (c : AskCache κ β) (single : Bool) (key : κ) (fresh : β) :
+    AskCache κ β × β × Bool :=
+  if single then (c, c.next, false)
+  else
+    match c.entry with
+    | some (k, b) => if k = key then (c, b, true) else ({ c with entry := some (key, fresh) }, fresh, false)
+    | none => ({ c with entry := some (key, fresh) }, fresh, false)
+
+/-- `Optimizer.tell` / `Optimizer.update_next`: `cache_ = {}` and a recomputed `_next_x`
+(environment: `newNext`) -/
+def optReset {κ β : Type} (c : AskCache κ β) (newNext : β) : AskCache κ β :=
+  { c with entry := none, next := newNext }
+
+/-- `CBO._ask(n)`; `refreshed` = the `_next_x` an `update_next` would compute now -/
+def cboAsk {κ β : Type} [DecidableEq κ] (c : AskCache κ β) (single : Bool) (key : κ) (fresh refreshed : β) :
+    AskCache κ β × β × Bool :=
+  let c1 := if c.asked then optReset c refreshed else c
+  let (c2, b, hit) := optAsk c1 single key fresh
+  ({ c2 with asked := true }, b, hit)
+
+/-- `CBO._tell(results)` as far as the next proposals go: `told` = "`opt_y` is not empty"; both
+branches (`Optimizer.tell` / `update_next`) drop the cached batch and recompute `_next_x` -/
+def cboTellCache {κ β : Type} (c : AskCache κ β) (_told : Bool) (newNext : β) : AskCache κ β :=
+  { optReset c newNext with asked := false }
+
+/-- one step of a search seen from the cache: an ask (with the batch / the next point the
+optimizer would compute now) or a tell of some results under a policy -/
+inductive CacheOp (κ β : Type)
+  | ask (single : Bool) (key : κ) (fresh refreshed : β)
+  | tell (p : Policy) (objs : List Val) (newNext : β)
+
+/-- a whole sequence of `CBO.ask` / `CBO.tell`: for every ask, the batch returned and whether it
+was a cached one -/
+def runCache {κ β : Type} [DecidableEq κ] : AskCache κ β → List (CacheOp κ β) → List (β × Bool)
+  | _, [] => []
+  | c, .ask single key fresh refreshed :: r =>
+    let (c', b, hit) := cboAsk c single key fresh refreshed
+    (b, hit) :: runCache c' r
+  | c, .tell p objs newNext :: r =>
+    let told := match cboTell p objs with | .ok (_ :: _) => true | _ => false
+    runCache (cboTellCache c told newNext) r
+
+/-- the same sequence for an optimizer WITHOUT any cache: a batch of several points is computed at
+the ask; a single point is the one computed by the last tell, or refreshed by the ask itself when
+something was asked since -/
+def specCache {κ β : Type} : Bool → β → List (CacheOp κ β) → List β
+  | _, _, [] => []
+  | asked, next, .ask single _ fresh refreshed :: r =>
+    let next' := if asked then refreshed else next
+    (if single then next' else fresh) :: specCache true next' r
+  | _, _, .tell _ _ newNext :: r => specCache false newNext r
 
 /-! ### `RegularizedEvolution._tell` -/
 
